@@ -808,8 +808,8 @@ func (t *ZeroAllocTokenizer) tokenizeTemplatePath(path string) {
 	path = strings.TrimSpace(path)
 
 	// If it's a quoted string
-	if (strings.HasPrefix(path, "\"") && strings.HasSuffix(path, "\"")) ||
-		(strings.HasPrefix(path, "'") && strings.HasSuffix(path, "'")) {
+	if len(path) >= 2 && ((strings.HasPrefix(path, "\"") && strings.HasSuffix(path, "\"")) ||
+		(strings.HasPrefix(path, "'") && strings.HasSuffix(path, "'"))) {
 		// Extract content without quotes
 		content := path[1 : len(path)-1]
 		t.AddToken(TOKEN_STRING, content, t.line)
